@@ -145,3 +145,16 @@ def has_starstar(call, name=None):
             if name is None or (isinstance(k.value, ast.Name) and k.value.id == name):
                 return True
     return False
+
+
+def proportional(a, b):
+    """non-zero rational k with a == k*b (both polynomial Rats), else None"""
+    if a.has_den() or b.has_den() or b.iszero():
+        return None
+    key = min(b.n.t)
+    if key not in a.n.t:
+        return None
+    k = a.n.t[key] / b.n.t[key]
+    if k != 0 and (a - b * k).iszero():
+        return k
+    return None
